@@ -299,6 +299,48 @@ class Check:
                 self.samples.append(slim(c))
         return verdicts
 
+    def replay_crashy(self, cases, args=None, timeout=600):
+        """Replay cases one at a time in a child process that the case may KILL (a panic in a
+        goroutine the harness cannot recover).  The culprit is the first case without a verdict."""
+        binp = self.build_harness()
+        pending = list(cases)
+        crashes = 0
+        while pending:
+            inp = "".join(json.dumps(c, ensure_ascii=False) + "\n" for c in pending)
+            p = subprocess.run([binp, "replay", "-workers", "1"] + (args or []), input=inp, capture_output=True,
+                               text=True, timeout=timeout, cwd=self.scratch)
+            done = []
+            for line in p.stdout.splitlines():
+                try:
+                    done.append(json.loads(line))
+                except Exception:
+                    pass
+            byid = {c["id"]: c for c in pending}
+            for v in done:
+                self.evaluations += 1
+                self.distinct.add(v["id"])
+                if v.get("verdict") not in ("ok", "abstain", "skip"):
+                    self.report(v.get("key") or v["verdict"], v.get("note") or v["verdict"],
+                                {"case": byid.get(v["id"]), "verdict": v})
+            if p.returncode == 0:
+                break
+            if len(done) >= len(pending):
+                raise InfraError("harness died after finishing its cases: %s" % p.stderr[-1000:])
+            culprit = pending[len(done)]
+            crashes += 1
+            m = re.search(r"^panic: (.*)$", p.stderr, re.M)
+            site = re.search(r"github.com/jig/lisp(/[\w/]+)?\.([\w.()*]+)\(", p.stderr[p.stderr.find("panic:"):] if "panic:" in p.stderr else "")
+            key = "crash:%s:%s" % (site.group(2) if site else "unknown", culprit.get("kind"))
+            self.evaluations += 1
+            self.distinct.add(culprit["id"])
+            self.report(key, "process killed by a panic outside any recover: %s" % (m.group(1)[:200] if m else p.stderr[-300:]),
+                        {"case": culprit, "stderr_tail": p.stderr[-1500:]})
+            pending = pending[len(done) + 1:]
+            if crashes > 40:
+                self.extra["crash_replay_truncated"] = len(pending)
+                break
+        self.extra["process_crashes"] = crashes
+
     # ------------------------------------------------------- findings / report
     def report(self, key, what, payload):
         """A discrepancy observed on the real code."""
